@@ -446,16 +446,18 @@ func portOnly(p *Prog, v ssa.Value, depth int) string {
 	return fmt.Sprintf("%T at %s", v, p.Pos(v.Pos()))
 }
 
+// An exemption names the function and WHAT is logged there (the call the unsanitised value comes from), not the
+// wording of the message: re-wording a log line changes nothing, logging something else does.
 type logExemption struct {
-	Func, FormatPrefix, Reason string
+	Func, Source, Reason string
 }
 
 var logExemptions = []logExemption{
-	{"obfs4proxy:clientSetup", "%s - registered listener: %s", "the loopback SOCKS listener address (127.0.0.1:port), not a peer"},
-	{"obfs4proxy:clientHandler", "%s - client failed socks handshake: %s", "error of the local SOCKS exchange with tor over loopback"},
-	{"obfs4proxy:clientHandler", "%s(%s) - invalid arguments: %s", "argument parsing error: carries bridge-line argument text, no network address"},
-	{"obfs4proxy:main", "%s - failed to initialize transports: %s", "start-up error, no peer involved"},
-	{"obfs4proxy:(*termMonitor).termOnStdinClose", "Stdin is closed or unreadable: %v", "stdin read error"},
+	{"obfs4proxy:clientSetup", "a net.Addr", "the loopback SOCKS listener address (127.0.0.1:port), not a peer"},
+	{"obfs4proxy:clientHandler", "common/socks5.Handshake(", "error of the local SOCKS exchange with tor over loopback (C20.R6 keeps addresses out of it)"},
+	{"obfs4proxy:clientHandler", "ParseArgs(", "argument parsing error: carries bridge-line argument text, no network address"},
+	{"obfs4proxy:main", "transports.Init(", "start-up error, no peer involved"},
+	{"obfs4proxy:(*termMonitor).termOnStdinClose", "io.Copy(", "stdin read error"},
 }
 
 func c20CallSites(c *Ctx, p *Prog) {
@@ -488,20 +490,27 @@ func c20CallSites(c *Ctx, p *Prog) {
 			key := siteKey(p, in, "log:"+format, cnt)
 			ob := c.Obl("R5", key, "everything this log call prints is free of peer addresses: errors and addresses pass through log.ElideError / log.ElideAddr first").At(p.InstrPos(in))
 			exempt := ""
-			for _, e := range logExemptions {
-				if e.Func == p.FuncKey(fn) && strings.HasPrefix(format, e.FormatPrefix) {
-					exempt = e.Reason
-				}
-			}
 			if isGolog {
 				// fatal start-up messages on stderr before logging is initialised
 				exempt = "start-up diagnostics to stderr before any connection exists"
 			}
 			bad := ""
+			nLeak, nExempt := 0, 0
 			for _, v := range varargElems(call) {
 				if b := logArgLeaks(p, v); b != "" {
 					bad = b
+					nLeak++
+					for _, e := range logExemptions {
+						if e.Func == p.FuncKey(fn) && strings.Contains(b, e.Source) {
+							exempt = e.Reason
+							nExempt++
+							break
+						}
+					}
 				}
+			}
+			if nExempt < nLeak && !isGolog {
+				exempt = "" // something else than the exempted value is logged unsanitised too
 			}
 			switch {
 			case bad == "":
